@@ -1,5 +1,6 @@
 import Driver.Proto
 import Neutrino.Spec.Converge
+import Neutrino.Model.Locator
 import Neutrino.Spec.Ban
 import Driver.Drv.Ban
 open Neutrino.Converge
@@ -425,6 +426,29 @@ def runC04s (c : CaseIn) : Array String := Id.run do
     let ws := words op
     if ws == ["setup"] then
       out := out.push s!"DIFF C04 case {c.num} line {ln}: the block manager could not be set up: {obs}"
+      continue
+    -- `req <k> loc [<h>|x …] fork <f> peer <ph> => start <s> n <cnt> new <m>`: one getheaders of the client as the asked
+    -- node saw it, and the answer it got.  Model replay (Neutrino/Model/Locator.lean): where the answer starts, how long
+    -- it is, how much of it is new.  Oracle (the client's own request, the peer's own answer): a request to a peer that
+    -- has blocks above the fork point must teach the client at least one header.
+    if ws.head? == some "req" then
+      match ws with
+      | "req" :: k :: "loc" :: rest =>
+        let (loc, rest) := bracket rest
+        match rest, words obs with
+        | ["fork", f, "peer", ph], ["start", st, "n", n, "new", m] =>
+          let l : List (Option Nat) := loc.map fun (x : String) => x.toNat?
+          let (f, ph, st, n, m) := (nat! f, nat! ph, nat! st, nat! n, nat! m)
+          let wantS := Neutrino.Locator.startOf l
+          let wantN := Neutrino.Locator.count 2000 ph wantS
+          let wantM := Neutrino.Locator.newCount 2000 ph f l
+          if n != wantN || (n != 0 && st != wantS) || m != wantM then
+            out := out.push s!"DIFF C04 case {c.num} line {ln}: answer to the request: harness <start {st} n {n} new {m}> model <start {wantS} n {wantN} new {wantM}>"
+          if m == 0 && ph > f && !seen.contains "request-learns-nothing" then
+            seen := "request-learns-nothing" :: seen
+            out := out.push s!"ORACLE-FAIL C04 case {c.num} line {ln}: shape=request-learns-nothing the getheaders sent to peer {k} (which serves {ph - f} block(s) above the fork point {f}) is answered with {n} header(s) from height {st}, all of them known: nothing is learned ({" ".intercalate c.header}): {op}"
+        | _, _ => out := out.push s!"DIFF C04 case {c.num} line {ln}: unparsable request line <{line}>"
+      | _ => out := out.push s!"DIFF C04 case {c.num} line {ln}: unparsable request line <{line}>"
       continue
     match parseSyncState (words obs) with
     | none => out := out.push s!"DIFF C04 case {c.num} line {ln}: unparsable observation <{obs}>"
